@@ -15,6 +15,7 @@
 (*   pickle.loads(pickle.dumps(quantity))  copy, missing defaults filled in   *)
 (*   copy.deepcopy(r), Unit.copy(deep=True) plain copy (since fix 24fb26f),    *)
 (*                                      class of the registry preserved       *)
+(*   pickle round trip of a registry / Unit object: copy of table and memo     *)
 (*   Unit.copy()  (shallow)             shares table AND memo: returns the    *)
 (*                                      memoised original, no new registry    *)
 (* and every look-up of a prefixed name writes the derived row into whichever *)
@@ -275,6 +276,37 @@ ShallowHandle(src, how) ==
      /\ tabs' = [tabs EXCEPT ![sd] = x.tab] /\ memo' = [memo EXCEPT ![sc] = x.mem]
      /\ UNCHANGED tflag
      /\ IF x.ok THEN Create(n, sd, sc, regs[src].kind, regs[src].grp) ELSE (last' = Raise /\ UNCHANGED regs)
+
+\* pickle.loads(pickle.dumps(src))  |  pickle.loads(pickle.dumps(Unit(p, registry=src))).registry :
+\* the registry OBJECT itself goes through pickle: an independent registry with a copy of the table AND of the memo
+\* (the memoised units travel with it, bound to the restored registry), same class
+PickleReg(src, how, p) ==
+  /\ HasFresh /\ regs[src].live
+  /\ LET n == Fresh sd == regs[src].d sc == regs[src].c
+         x == IF how = "registry" THEN [ok |-> TRUE, tab |-> tabs[sd], mem |-> memo[sc]] ELSE ConstructR(tabs[sd], memo[sc], p) IN
+     /\ Log([op |-> "picklereg", r |-> src, new |-> n, how |-> how, str |-> p])
+     /\ IF ~x.ok
+        THEN /\ tabs' = [tabs EXCEPT ![sd] = x.tab] /\ memo' = [memo EXCEPT ![sc] = x.mem]
+             /\ last' = Raise /\ UNCHANGED <<regs, tflag>>
+        ELSE /\ tabs' = [tabs EXCEPT ![sd] = x.tab, ![n] = x.tab]
+             /\ memo' = [memo EXCEPT ![sc] = x.mem, ![n] = x.mem]
+             /\ tflag' = [tflag EXCEPT ![n] = [def |-> tflag[sd].def, ident |-> FALSE]]
+             /\ Create(n, n, n, regs[src].kind, n)
+
+\* unyt_quantity(1.0, q, registry=r).in_base(sys)[.to(p)], sys one of the process-wide built-in unit systems
+\* "mks" / "cgs": the system's length unit (m / cm) is looked up in r's own table (generated only while m is prefixable
+\* in r, so that cm can be derived); the optional .to(p) parses p through the registry the converted data carries (r, or
+\* a shallow copy sharing r's table and memo).  Nothing of the alphabet is written beyond these two constructions.
+Systems == {"mks", "cgs"}
+InBase(r, q, sys, to) ==
+  /\ regs[r].live /\ TabOf(r)["m"].scale # 0 /\ TabOf(r)["m"].pfx
+  /\ Log([op |-> "inbase", r |-> r, str |-> q, sys |-> sys, str2 |-> to])
+  /\ LET x == ConstructR(TabOf(r), MemoOf(r), q)
+         y == IF to = "" \/ ~x.ok THEN x ELSE ConstructR(x.tab, x.mem, to) IN
+     /\ tabs' = [tabs EXCEPT ![regs[r].d] = y.tab]
+     /\ memo' = [memo EXCEPT ![regs[r].c] = y.mem]
+     /\ last' = IF x.ok /\ y.ok THEN [k |-> "res", r |-> r] ELSE Raise
+  /\ UNCHANGED <<regs, tflag>>
 
 (* ---- unit systems and namespaces created from a registry ---- *)
 \* the regime in which the namespace helpers are transcribed: all built-in symbols present, m as shipped
